@@ -222,7 +222,14 @@ int skinny128_ctr_init(Skinny128CTR_t *ctr)
     ctr->vtable = vtable;
 
     /* Initialize the CTR mode context */
-    return (*(vtable->init))(ctr);
+    if (!(*(vtable->init))(ctr)) {
+        /* Out of memory: leave the control block inert so that cleanup
+           and every other function fail safely on it */
+        ctr->vtable = 0;
+        ctr->ctx = 0;
+        return 0;
+    }
+    return 1;
 }
 
 void skinny128_ctr_cleanup(Skinny128CTR_t *ctr)
